@@ -81,13 +81,9 @@ Proof.
   rewrite bind_get, tonumber_get_val, DEF, bind_ret_l. clear DEF.
   set (T := match stored_num st kt with Some z => z | None => bs end).
   set (s := match stored_num st kts with Some z => z | None => 0 end).
-  mstep lua_sub_M. mstep lua_max_M. mstep lua_mul_M. mstep lua_add_M. mstep lua_min_M. mstep lua_ge_M.
+  repeat marith.
   set (filled := Z.min bs (T + Z.max 0 (now - s) * rt)).
-  assert (NEW : (if truthy (LBool (n <=? filled)) then bind (lua_sub (znum filled) (znum n)) (fun t13 => ret t13) else ret (znum filled))
-                = @ret lval (znum (if n <=? filled then filled - n else filled))).
-  { destruct (n <=? filled); cbn [truthy]; [rewrite lua_sub_M, bind_ret_l|]; reflexivity. }
-  rewrite NEW, bind_ret_l. clear NEW.
   assert (TT : (token_ttl rt bs <=? 0) = false) by (unfold token_ttl; apply Z.leb_gt; lia).
-  rewrite bind_setex, TT, bind_setex. cbn [rnow store_put]. rewrite TT.
-  unfold ret. cbv zeta. destruct (n <=? filled); reflexivity.
+  destruct (n <=? filled) eqn:G; cbn [truthy]; rewrite ?lua_sub_M, ?bind_ret_l; cbv beta;
+    rewrite bind_setex, TT, bind_setex; cbn [rnow store_put]; rewrite TT; reflexivity.
 Qed.
